@@ -192,7 +192,10 @@ def gen_program(rng, length):
                 continue
             B, NB = regs[bidx], nums[bidx]
             meta['arith'] += 1
-            emit('(IMulE %d %d)' % (a, bidx), ['mule', a, bidx], lambda: A * B, lambda: NA * NB)
+            # either orientation: a constant cell on the LEFT of a non-constant cell takes another branch of ScalarExpression.__mul__
+            flip = rng.random() < 0.5
+            emit('(IMulE %d %d)' % (a, bidx), ['mule', a, bidx, 'flipped' if flip else 'plain'], (lambda: B * A) if flip else (lambda: A * B),
+                 lambda: NA * NB)
         elif op == 'mulq':
             k = q(rng)
             meta['arith'] += 1
@@ -424,6 +427,12 @@ def extra_numpy_stream(rng):
         ('trace_offset', lambda: c.trace(Z, offset=1), lambda: np.trace(vZ, offset=1)),
         ('inner2d', lambda: c.inner(M, Y), lambda: np.inner(M, vY)),
         ('outer', lambda: c.outer(x, np.array([1.0, -2.0])), lambda: np.outer(vx, np.array([1.0, -2.0]))),
+        # constant cells on the LEFT of non-constant cells of a plain Expression (not a bare Variable)
+        ('const * (x + 0)', lambda: c.Expression(np.array([2.0, -3.0, 0.5])) * (x + 0), lambda: np.array([2.0, -3.0, 0.5]) * vx),
+        ('mixed cells product', lambda: c.hstack((1.5, x[0])) * c.hstack((x[1], 2.0)), lambda: np.array([1.5 * vx[1], 2.0 * vx[0]])),
+        ('outer(const, 1.0 * x)', lambda: c.outer(np.array([1.0, -2.0]), 1.0 * x), lambda: np.outer(np.array([1.0, -2.0]), vx)),
+        ('constant matrix @ constant Expression', lambda: np.diag([1.0, 10.0, 100.0]) @ c.Expression(np.array([1.0, 2.0, 3.0])),
+         lambda: np.array([1.0, 20.0, 300.0])),
     ]
     for name, split_f, np_f in [('split', lambda: c.split(Z, 3, axis=1), lambda: np.split(vZ, 3, axis=1)),
                                 ('hsplit', lambda: c.hsplit(Z, 3), lambda: np.hsplit(vZ, 3)),
